@@ -1252,7 +1252,7 @@ func init() {
 		Level: "exploration",
 		Rule: "generated ground truths (1-4 star-shaped outers in distinct grid cells, 0-3 holes each, validated by the generator's own exact point-in-polygon / segment-intersection tests), every ring cut at 1..n vertices, pieces reversed at random, members / ways / nodes shuffled; " +
 			"each truth is converted in four input variants (N node objects, W located way nodes, NO/WO the same with truth-derived member orientations) and annotated four times: members without annotations (A), pre-annotated with the true directions (A=), with the opposite ones (A-), with a mix of right / wrong / none (A~); plus seed-independent exhaustive families (single n-gon: every cut set x reversal mask x member order; outer+hole; two outers). " +
-			"Every input is also converted with only a random subset of members annotated (NP, WP; enum-partial: all subsets x orders), and sets of 2-4 relations sharing border ways (kind shared) go through one Convert call in every relation order, each relation judged against its own truth. "+
+			"Every input is also converted with only a random subset of members annotated (NP, WP; enum-partial: all subsets x orders), and sets of 2-4 relations sharing border ways (kind shared) go through one Convert call in every relation order, each relation judged against its own truth. " +
 			"A signature is (family, #outers, holes per outer, cut classes present, reversal class, +node member, variant); distinct_nontrivial counts distinct signatures.",
 		Assumptions: []string{
 			"'the result is the same' is read up to ring start vertex, order of holes within a polygon and order of polygons; winding, closure and the cyclic vertex sequence are compared exactly (float64 bit patterns)",
